@@ -5,6 +5,7 @@ import Lean.Data.Json
 import SqlairModel.Spec.L2
 import SqlairProofs.NoPanic.Defs
 import Driver.Json
+import Driver.L2Rows
 
 open Lean Sqlair
 
@@ -139,7 +140,7 @@ def handleL2 (j : Json) : Except String Json := do
        ("c01", Json.bool (holdsC01e2e q segs o && holdsC01exact segs o)),
        ("c03", Json.bool ((!tagsClean tt || holdsC03 segs o) && holdsC03vals C tt segs args o && holdsC03present args o)),
        ("c02", Json.bool (literalsVerbatim segs o)),
-       ("c04", Json.bool (holdsC04rej m o && literalsVerbatim segs o)),
+       ("c04", Json.bool (holdsC04rej m o && literalsVerbatim segs o && holdsC04rows C tt segs args o)),
        ("c05", Json.bool (!tagsClean tt || holdsC05 segs o)),
        ("c07", Json.bool (holdsC07 m o && !wrongReject)),
        ("c08", Json.bool (holdsC08 m o))])
